@@ -144,3 +144,6 @@ def check(ctx):
     import_rules(ctx, "c17", {"slot-walk"})
     # rabuf extends a file when a seek target lies beyond its end: slot ends must be computed from slot starts
     import_rules(ctx, "c09", {"slot-end-from-slot-start"})
+    # a field read at the wrong position sends the next seek anywhere (rabuf extends the file on a seek past its end)
+    import_rules(ctx, "c06", {"free-slot-field-position"})
+    import_rules(ctx, "c05", {"field-position"})
